@@ -239,6 +239,15 @@ func (s *Server) ResetEvents() {
 	s.mu.Unlock()
 }
 
+// Accepted returns how many connections the server has accepted so far; connection ids are 1..Accepted() in
+// accept order. Unlike the "connect" event (logged by the connection's goroutine after the handshake) the counter
+// is bumped before the handshake starts, i.e. before the dialling side can have seen the greeting.
+func (s *Server) Accepted() uint32 {
+	s.mu.Lock()
+	defer s.mu.Unlock()
+	return s.nextID
+}
+
 // OpenConns returns the state of the currently open connections.
 func (s *Server) OpenConns() []ConnState {
 	s.mu.Lock()
